@@ -387,7 +387,206 @@ def _root_local(fn, defs, op):
 
 
 def print_utf8(ctx, lexpr):
-    r = ctx.rule("R-PRINT-UTF8", "every byte source of the printer is ASCII or the bytes of a &str")
+    """Every byte handed to the sink by print.rs is ASCII or part of a str: decided by abstract evaluation of each
+    entry point of the printer (Formatter methods, public functions, closures, helpers without local callers) with
+    its parameters ranging over their whole type (char: every scalar value, u8: 0..=255, enums: every variant),
+    intervals refined at comparisons, private helpers looked through, `str::as_bytes` UTF-8 by type."""
+    from ..sim import Adt, Bytes, Rng, Utf8, Tup, Ref, UNK
+    r = ctx.rule("R-PRINT-UTF8", "every byte the printer hands to the sink is ASCII or belongs to a str (all values of "
+                                 "the parameters' types)")
+    fwd = common.sink_forwarders(lexpr)
+    pfns = [f for f in lexpr.fns if common.in_file(f, "lexpr/src/print.rs")]
+    by_path = {f.path: f for f in pfns}
+
+    def sink_sites(f):
+        out = []
+        for bi, t in f.calls():
+            c = t["callee"]
+            if c.get("trait") == "std::io::Write" and c.get("method") in ("write_all", "write", "write_vectored", "write_fmt"):
+                out.append((bi, t, c.get("method")))
+        return out
+
+    callers = {}
+    for f in pfns:
+        for bi, t in f.calls():
+            c = t["callee"]
+            tg = c.get("resolved") or c.get("path")
+            if tg in by_path:
+                callers.setdefault(tg, set()).add(f.owner if f.kind == "closure" else f.path)
+    recursive = {f.path for f in pfns if any((t["callee"].get("resolved") or t["callee"].get("path")) == f.path for _, t in f.calls())}
+
+    def is_entry(f):
+        if f.kind == "closure":
+            return True
+        if f.impl_trait or f.path.startswith("print::Formatter::") or f.is_pub:
+            return True
+        return not (callers.get(f.path, set()) - {f.path})
+
+    entries = [f for f in pfns if is_entry(f)]
+    inline = lambda a, b: b.path in by_path and b.path not in recursive and not is_entry(b)
+
+    def sym_for(ty):
+        t = ty.replace("&'static ", "&").replace("&mut ", "&").lstrip("&")
+        if t == "char":
+            return [Rng(0, 0x10FFFF)]
+        if t in sim.INT_BITS and t != "bool":
+            lo, hi = sim._ty_range(t)
+            return [Rng(lo, hi)]
+        a = lexpr.adts.get(t)
+        if a and a["kind"] == "enum" and len(a["variants"]) <= 16:
+            vals = []
+            for v in a["variants"]:
+                fs = []
+                for fl in v["fields"]:
+                    x = sym_for(fl["ty"])
+                    fs.append(x[0] if len(x) == 1 else UNK)
+                vals.append(Adt(t, v["idx"], fs, v["name"]))
+            return vals
+        return [UNK]
+
+    def classify(v, S, p):
+        v = S._deref(v, p)
+        if isinstance(v, Utf8):
+            return True, "bytes of a str"
+        if isinstance(v, Bytes):
+            bs = bytes(v.b)
+            try:
+                bs.decode("utf-8")
+                return True, "constant %r" % bs[:12]
+            except UnicodeDecodeError:
+                return False, "constant %r is not UTF-8" % bs[:12]
+        if isinstance(v, Tup):
+            parts = []
+            for x in v.fields:
+                x = S._deref(x, p)
+                if isinstance(x, int) and 0 <= x < 0x80:
+                    parts.append("0x%02X" % x)
+                elif isinstance(x, Rng) and 0 <= x.lo and x.hi < 0x80:
+                    parts.append("%d..=%d" % (x.lo, x.hi))
+                else:
+                    return False, "an element may be %r (not below 0x80)" % (x,)
+            return True, "[" + ", ".join(parts) + "]"
+        if isinstance(v, Rng):
+            return (0 <= v.lo and v.hi < 0x80), "byte in %r" % (v,)
+        return False, "bytes not determined (%r)" % (v,)
+
+    import re as _re
+
+    def by_type_hook(S, fn, bb, t, args, path):
+        """Items of an unknown byte slice (`for octet in bytes`): any u8, by type."""
+        nm = F.callee_names(t)
+        if "std::iter::Iterator::next" in nm:
+            st = (t["callee"].get("substs") or [""])[0]
+            m = _re.match(r"std::slice::Iter<'_, (u8|u16|u32|u64|usize)>$", st)
+            d0 = S._deref(args[0], path) if args else None
+            if m and not (isinstance(d0, Adt) and d0.adt == "sim::SliceIter"):
+                lo, hi = sim._ty_range(m.group(1))
+                return ("fork", [Adt("std::option::Option", 0, []),
+                                 Adt("std::option::Option", 1, [Ref([Rng(lo, hi)], 0, ())])])
+        return None
+
+    static_sites = {}
+    for f in pfns:
+        for bi, t, m in sink_sites(f):
+            static_sites[(f.path, bi)] = (f, t, m)
+        for bi, t in f.calls():
+            if (t["callee"].get("resolved") or t["callee"].get("path")) in fwd:
+                static_sites[(f.path, bi)] = (f, t, "forwarder")
+    def relevant(f, seen=None):
+        """Does the entry (with the helpers looked through from it) contain a write to the sink at all?"""
+        seen = seen if seen is not None else set()
+        if f.path in seen:
+            return False
+        seen.add(f.path)
+        if any(k[0] == f.path for k in static_sites):
+            return True
+        for bi, t in f.calls():
+            g = by_path.get(t["callee"].get("resolved") or t["callee"].get("path"))
+            if g is not None and inline(f, g) and relevant(g, seen):
+                return True
+        return False
+
+    covered = {}
+    bad = {}
+    for f in entries:
+        argsets = [dict()]
+        for i in range(1, f.arg_count + 1):
+            vals = sym_for(f.local_ty(i))
+            if vals == [UNK]:
+                continue
+            argsets = [dict(list(a.items()) + [(i, v)]) for a in argsets for v in vals][:64]
+        for args in argsets:
+            S = sim.Sim([lexpr], hooks={"call": by_type_hook}, inline=inline, max_paths=6000, max_depth=6, max_visits=3)
+            S.utf8_by_type = True
+            try:
+                # fresh symbolic quantities per run (they are refined in place)
+                a2 = {k: S._copy_val(v, {}) for k, v in args.items()}
+                paths = S.run(f, args=a2)
+            except sim.Limit:
+                if relevant(f):
+                    r.violation(f.path, "inexact", "path limit while evaluating %s" % f.path, f.loc())
+                continue
+            for p in paths:
+                stack = []        # (callee path, caller fn, caller block) of the helpers currently looked through
+                for ev in p.events:
+                    if ev[0] == "enter":
+                        stack.append((ev[1], ev[2], ev[3]))
+                        continue
+                    if ev[0] == "leave":
+                        if stack and stack[-1][0] == ev[1]:
+                            stack.pop()
+                        continue
+                    if ev[0] != "call":
+                        continue
+                    names = ev[1]
+                    site = (ev[3], ev[4])
+                    if site not in static_sites:
+                        continue
+                    if ev[3] in fwd and stack and stack[-1][0] == ev[3] and (stack[-1][1], stack[-1][2]) in static_sites:
+                        # the write_all inside a forwarding helper belongs to the call site of the helper
+                        okc, desc = classify(ev[6][1] if len(ev[6]) > 1 else None, S, p)
+                        csite = (stack[-1][1], stack[-1][2])
+                        if okc:
+                            covered.setdefault(csite, desc + " (through %s)" % ev[3].rsplit("::", 1)[-1])
+                        else:
+                            bad[csite] = desc
+                        continue
+                    g, t, m = static_sites[site]
+                    if m == "write_fmt":
+                        covered[site] = "write! (core::fmt emits str fragments only)"
+                        continue
+                    if m in ("write", "write_vectored"):
+                        if not (g.impl_trait == "std::io::Write"):
+                            bad[site] = "calls io::Write::%s directly" % m
+                        covered.setdefault(site, "raw write")
+                        continue
+                    if m == "forwarder":
+                        continue        # the helper's own write_all is observed when it is looked through / evaluated
+                    okc, desc = classify(ev[6][1] if len(ev[6]) > 1 else None, S, p)
+                    if okc:
+                        covered.setdefault(site, desc)
+                    else:
+                        bad[site] = desc
+    n = 0
+    for site, (g, t, m) in sorted(static_sites.items(), key=lambda x: (x[0][0], x[0][1])):
+        if g.path in fwd:
+            continue          # accounted for at the helper's call sites
+        n += 1
+        if site in bad:
+            r.violation(g.path, "write_all-source",
+                        "%s writes bytes that are not provably UTF-8 (%s); they end up in the String returned by to_string "
+                        "via String::from_utf8_unchecked" % (g.path, bad[site]), g.loc(t.get("line")))
+        elif site in covered:
+            r.ok("%s line %s: %s" % (g.path, t.get("line"), covered[site]), g, t.get("line"))
+        else:
+            r.violation(g.path, "write_all-uncovered",
+                        "the write at line %s of %s is not reached by the evaluation of any printer entry point; its bytes "
+                        "are not established" % (t.get("line"), g.path), g.loc(t.get("line")))
+    r.floor("sink-writes", n)
+
+
+def print_utf8_defuse(ctx, lexpr):
+    r = ctx.rule("R-PRINT-UTF8/defuse", "every byte source of the printer is ASCII or the bytes of a &str")
     n = 0
     fwd = common.sink_forwarders(lexpr)
     for fn in lexpr.fns:
@@ -762,6 +961,8 @@ def mono_reach(ctx, lexpr, feeders):
     """Functions (poly paths of lexpr) reachable in the monomorphic graph from any instance of a feeder."""
     db = ctx.facts(["mono"])
     m = db.mono()
+    if m is None:
+        raise build.MachineryError("monomorphic facts are missing")
     fdp = {lexpr.fn(p).d["dp"] for p in feeders if lexpr.fn(p) is not None}
     start = [i for i, n in enumerate(m.nodes) if n.get("dp") in fdp]
     if not start:
